@@ -61,6 +61,8 @@ type Ctx struct {
 	pkgInits              map[*ssa.Package]map[*ssa.Global]fval // folded package initialisers (fold.go)
 	initPoisoned          map[*MapV]bool
 	syllableConvertFolded bool
+	playPipelineChecked   bool
+	pipelineChecked       bool
 	genAttrsFolded        bool
 	marshalWrap           map[*ssa.Function]int
 	diatonicPaired        map[string]bool
